@@ -82,7 +82,11 @@ Proof. destruct t; discriminate. Qed.
 (* every type has a target *)
 Definition dflt (t : cty) : cty := match t with Types.CNil => Types.CRec 0%N | _ => t end.
 Lemma accepts_dflt : forall t, accepts (dflt t) t = true.
-Proof. intros t. destruct t; simpl; auto; try apply cty_eqb_refl. apply N.eqb_refl.
+Proof.
+  intros t. destruct t; try reflexivity.
+  - exact (cty_eqb_refl (Types.CFun ps t)).
+  - exact (cty_eqb_refl (Types.CArr t)).
+  - exact (cty_eqb_refl (Types.CRec r)).
 Qed.
 
 (* ---- side conditions -------------------------------------------------------------------- *)
@@ -183,11 +187,12 @@ Lemma ready_items_cons : forall i t, ready_items (i :: t) = true ->
   ready_item i = true /\ ready_items t = true /\ (is_func i = true -> head_func t = false).
 Proof.
   unfold ready_items. intros i t H. simpl in H.
-  repeat (apply andb_true_iff in H; destruct H as [H ?]).
   apply andb_true_iff in H. destruct H as [H1 H2].
-  repeat split; auto. 
-  - rewrite H2; auto.
-  - intros E. rewrite E in H0. simpl in H0. destruct (head_func t); auto; discriminate.
+  apply andb_true_iff in H1. destruct H1 as [H1 H3].
+  apply andb_true_iff in H2. destruct H2 as [H2 H4].
+  repeat split; auto.
+  - rewrite H3, H4. reflexivity.
+  - intros E. rewrite E in H2. simpl in H2. destruct (head_func t); auto; discriminate.
 Qed.
 
 (* ---- environments ------------------------------------------------------------------------ *)
@@ -446,8 +451,8 @@ Proof.
   intros S st cs [HL HV].
   assert (X : ext S st S (snd (new_arr st cs))).
   { unfold ext; simpl; repeat split; auto. intros. now apply nth_error_snoc_old. }
-  repeat split; auto.
-  - intros. eapply val_ok_ext; eauto.
+  split; [|split]; auto.
+  - split; auto. simpl. intros. eapply val_ok_ext; eauto.
   - simpl. apply nth_error_snoc_new.
 Qed.
 
@@ -458,8 +463,8 @@ Proof.
   intros S st cs [HL HV].
   assert (X : ext S st S (snd (new_rec st cs))).
   { unfold ext; simpl; repeat split; auto. intros. now apply nth_error_snoc_old. }
-  repeat split; auto.
-  - intros. eapply val_ok_ext; eauto.
+  split; [|split]; auto.
+  - split; auto. simpl. intros. eapply val_ok_ext; eauto.
   - simpl. apply nth_error_snoc_new.
 Qed.
 
@@ -598,7 +603,7 @@ Lemma declare_all_eqv1 : forall sigs G G2 G', declare_all sigs G = Ok G2 -> eqv1
   exists G2', declare_all sigs G' = Ok G2' /\ eqv1 G2 G2'.
 Proof.
   induction sigs as [|[x t] sigs IH]; intros G G2 G' D H; simpl in D.
-  - inversion D; subst. eauto.
+  - inversion D; subst. exists G'. split; [reflexivity|exact H].
   - destruct (declare x (t, KTemp) G) as [G1|] eqn:E; [|discriminate]. simpl in D.
     destruct (declare_eqv1 _ _ _ _ _ E H) as [G1' [E' H']].
     destruct (IH _ _ _ D H') as [G2' [D' H2]]. exists G2'. simpl. rewrite E'. simpl. auto.
@@ -608,7 +613,7 @@ Lemma declare_params_eqv1 : forall ps G G2 G', declare_params ps G = Ok G2 -> eq
   exists G2', declare_params ps G' = Ok G2' /\ eqv1 G2 G2'.
 Proof.
   induction ps as [|[[x v] t] ps IH]; intros G G2 G' D H; simpl in D.
-  - inversion D; subst. eauto.
+  - inversion D; subst. exists G'. split; [reflexivity|exact H].
   - destruct (declare x (cty_of t, if v then KVar else KConst) G) as [G1|] eqn:E; [|discriminate]. simpl in D.
     destruct (declare_eqv1 _ _ _ _ _ E H) as [G1' [E' H']].
     destruct (IH _ _ _ D H') as [G2' [D' H2]]. exists G2'. simpl. rewrite E'. simpl. auto.
@@ -629,20 +634,24 @@ Proof.
   apply typing_mutind; intros; try (econstructor; eauto using eqv_push; fail).
   - (* var *) constructor. rewrite <- H0. exact H.
   - (* let *)
-    destruct (declare_eqv1 _ _ _ _ _ H1 H4) as [G2' [D' H']].
+    match goal with D : declare _ _ _ = Ok _, E : eqv1 _ _ |- _ =>
+      destruct (declare_eqv1 _ _ _ _ _ D E) as [G2' [D' H']] end.
     econstructor; eauto using eqv1_eqv.
   - (* var item *)
-    destruct (declare_eqv1 _ _ _ _ _ H2 H5) as [G2' [D' H']].
+    match goal with D : declare _ _ _ = Ok _, E : eqv1 _ _ |- _ =>
+      destruct (declare_eqv1 _ _ _ _ _ D E) as [G2' [D' H']] end.
     econstructor; eauto using eqv1_eqv.
   - (* func item *)
+    match goal with E : eqv1 _ _ |- _ => rename E into HE end.
     destruct inrun.
-    + inversion H; subst. econstructor; eauto using eqv1_eqv. reflexivity.
-    + destruct (declare_all_eqv1 _ _ _ _ H H4) as [G2' [D' H']].
+    + inversion H; subst. econstructor; eauto using eqv1_eqv.
+    + destruct (declare_all_eqv1 _ _ _ _ H HE) as [G2' [D' H']].
       econstructor; eauto using eqv1_eqv.
   - (* expr item *) econstructor; eauto using eqv1_eqv.
   - (* fdef *)
+    match goal with E : eqv _ _ |- _ => rename E into HE end.
     unfold fun_env in H0.
-    destruct (declare_params_eqv1 _ _ _ (( if lam then [] else [(name, (sig_cty ps ret, KTemp))]) :: G'0) H0)
+    destruct (declare_params_eqv1 _ _ _ ((if lam then [] else [(name, (sig_cty ps ret, KTemp))]) :: G'0) H0)
       as [G2' [D' H']]; [apply eqv_push; assumption|].
     econstructor; eauto using eqv1_eqv, eqv_push.
 Qed.
